@@ -126,8 +126,8 @@ pub struct Violation {
     pub fail: Fail,
 }
 
-pub fn pat_case(n: &Node, text: &str, pos: usize, extra: Value) -> Value {
-    json!({"pattern": n.to_pattern(), "ast": astjson::to_json(n), "text": text, "pos": pos, "extra": extra})
+pub fn pat_case(pattern: &str, n: &Node, text: &str, pos: usize, extra: Value) -> Value {
+    json!({"pattern": pattern, "ast": astjson::to_json(n), "text": text, "pos": pos, "extra": extra})
 }
 
 pub fn case_node(case: &Value) -> Option<Node> {
@@ -321,6 +321,10 @@ pub trait PatProp: Sync {
     fn extra(&self) -> Value {
         Value::Null
     }
+    /// the pattern string handed to the crate for this AST
+    fn spell(&self, n: &Node) -> String {
+        n.to_pattern()
+    }
 }
 
 #[derive(Clone, Debug)]
@@ -332,7 +336,7 @@ pub struct Found {
 }
 
 pub fn run_pattern<P: PatProp>(ctx: &RunCtx, prop: &P, n: &Node, texts: &[String], st: &mut Stats, count: bool) -> Option<Found> {
-    let pat = n.to_pattern();
+    let pat = prop.spell(n);
     let mut scratch = Stats::default();
     let stp = if count { &mut *st } else { &mut scratch };
     let prep = match prop.prepare(ctx, n, &pat, stp) {
@@ -630,7 +634,7 @@ pub fn shrink(found: Found, still_fails: &dyn Fn(&Node, &str, usize) -> bool) ->
 pub fn finish<P: PatProp>(ctx: &RunCtx, prop: &P, found: Found) -> Violation {
     let kind = found.fail.kind.clone();
     let check = |n: &Node, t: &str, pos: usize| -> Option<Fail> {
-        let pat = n.to_pattern();
+        let pat = prop.spell(n);
         let mut st = Stats::default();
         match prop.prepare(ctx, n, &pat, &mut st) {
             Prep::Ready(p) => {
@@ -648,7 +652,7 @@ pub fn finish<P: PatProp>(ctx: &RunCtx, prop: &P, found: Found) -> Violation {
     };
     let small = shrink(found, &|n, t, pos| matches!(check(n, t, pos), Some(f) if f.kind == kind));
     let fail = check(&small.node, &small.text, small.pos).unwrap_or(small.fail.clone());
-    Violation { case: pat_case(&small.node, &small.text, small.pos, prop.extra()), fail }
+    Violation { case: pat_case(&prop.spell(&small.node), &small.node, &small.text, small.pos, prop.extra()), fail }
 }
 
 /// Re-evaluate one saved case of a pattern property (bypasses all generators and exclusions).
@@ -656,7 +660,7 @@ pub fn replay_pat<P: PatProp>(ctx: &RunCtx, prop: &P, case: &Value) -> Result<Op
     let n = case_node(case).ok_or("replay case has no ast")?;
     let text = case.get("text").and_then(|t| t.as_str()).unwrap_or("");
     let pos = case.get("pos").and_then(|p| p.as_u64()).unwrap_or(0) as usize;
-    let pat = n.to_pattern();
+    let pat = prop.spell(&n);
     let mut st = Stats::default();
     match prop.prepare(ctx, &n, &pat, &mut st) {
         Prep::Ready(p) => Ok(match prop.eval(ctx, &p, &n, text, pos) {
